@@ -147,4 +147,4 @@ def _imp(mod, name, rid):
 
 
 RULES = [geometry, _imp("c01", "sort_rule", "C01.SORT"), _imp("c01", "chain_rule", "C01.CHAIN"), _imp("c01", "gap_rule", "C01.GAP"), _imp("c01", "writeback", "C01.WRITEBACK"),
-         _imp("c01", "alllayers", "C01.ALLLAYERS"), _imp("c04", "layeridx", "C04.LAYERIDX")]
+         _imp("c01", "alllayers", "C01.ALLLAYERS"), _imp("c04", "layeridx", "C04.LAYERIDX"), _imp("c11", "timeline_opts", "GEN.OPTS-MERGE")]
